@@ -276,6 +276,20 @@ func (x *Exec) signed(c *Client, userIdx int, m *ref.Msg, defect string, seed ui
 		}
 		cr.nonce = string(b)
 		valid = false
+	case "nonce-alnum-len":
+		// a well-formed-looking nonce (right alphabet) of any length 0..70
+		n := int(seed % 71)
+		b := make([]byte, n)
+		sd := seed | 1
+		for i := range b {
+			sd = sd*6364136223846793005 + 1442695040888963407
+			b[i] = b36[(sd>>33)%36]
+		}
+		if string(b) == cr.nonce {
+			b = append(b, 'Z')
+		}
+		cr.nonce = string(b)
+		valid = false
 	case "nonce-mac-flip", "nonce-ts-flip":
 		nb := b36decode(cr.nonce)
 		for len(nb) < 16 {
